@@ -188,7 +188,40 @@ def run(ctx):
                           {"leg": "V-reader", "why": v["why"], "file_hex": tr["_hex"], "reads": tr["reads"][:50],
                            "result": tr["result"], "lines_returned": len(tr["lines"])})
     ctx.sample({"trace": {k: (v if k != "_hex" else v[:80] + "...") for k, v in traces[0].items() if k not in ("plain", "body", "lines")}})
+    _large_leg(ctx, I, rnd, quick)
     ctx.exhaustive = quick
+
+
+def _large_leg(ctx, I, rnd, quick):
+    """inventories beyond one decompression buffer (> 16 KiB of text, also > 16 KiB compressed) under coarse read
+    schedules: the table must be Sphinx's for these bytes and the same for every schedule (S: Correct for any chunking;
+    these files are too large to enumerate in TLC, the schedules are the ones a file object / HTTP stream produces)"""
+    n = 0
+    for t in range(3 if quick else 12):
+        entries = 700 + 600 * t
+        noisy = t % 3 == 2          # names that compress badly: the compressed payload itself exceeds 16 KiB
+        lines = []
+        for j in range(entries):
+            name = (f"mod{j}.func_{rnd.getrandbits(64):x}_{rnd.getrandbits(64):x}" if noisy else f"pkg.module{j}.function")
+            lines.append(f"{name} py:function 1 api/{'x' if noisy else 'page'}{j}.html#$ -\n")
+        body = "".join(lines).encode()
+        data = (f"{H2}\n# Project: Large\n# Version: 1\n{ZL}\n").encode() + zlib.compress(body)
+        want = sorted(_sphinx_flat(data), key=repr)
+        for size in (None, 4096, 1000, 16384, 5000, 64):
+            sizes = [] if size is None else [size] * (len(data) // size + 2)
+            n += 1
+            ctx.count(("large", t, size))
+            ctx.traces_validated += 1
+            case = {"leg": "R-large", "entries": entries, "text_bytes": len(body), "file_bytes": len(data), "read_size": size or "whole file"}
+            try:
+                got = sorted(_flat(I.load(ChunkStream(data, sizes))), key=repr)
+            except Exception as e:  # noqa: BLE001
+                ctx.violation(f"load() of a {len(data)}-byte inventory ({len(body)} bytes of text) read in pieces of {size or 'the whole file'}: {type(e).__name__}: {e}", case)
+                continue
+            if got != want:
+                ctx.violation(f"load() of a {len(data)}-byte inventory ({len(body)} bytes of text) read in pieces of {size or 'the whole file'}: "
+                              f"{len(got)} entries, Sphinx's loader gives {len(want)} for the same bytes", case)
+    ctx.leg("R-large", loads=n)
 
 
 def _serialise(lines):
